@@ -1,0 +1,16 @@
+//go:build verif
+
+// Exports for the external verification harness.  Compiled only with
+// -tags verif; adds no behaviour to normal builds.
+
+package core
+
+// VerifShellSafeQuote exposes appendShellSafeQuote.
+func VerifShellSafeQuote(s string) string {
+	return string(appendShellSafeQuote(nil, s))
+}
+
+// VerifFormatArgs exposes formatArgs.
+func VerifFormatArgs(envs map[string]string, shellCmd string, argv []string) string {
+	return formatArgs(envs, shellCmd, argv)
+}
